@@ -140,7 +140,9 @@ def gen_C09(g, tier):
         elif kind == 'illcond':
             k = 10 ** g.r.uniform(0.5, 3)
             a = [k, 0, a[2], a[3], a[4], a[5], 1 / k, 0]
-        scale = 10 ** g.r.uniform(-20, 20) if g.random() < 0.3 else 1.0
+        # element scales over the whole range in which det J = O(scale^2) is representable (the decomposition is scale-free)
+        k = g.random()
+        scale = 10 ** g.r.uniform(-20, 20) if k < 0.3 else (g.choice([1e90, 1e-90, 1e120, 1e-120, 1e60, 1e-60, 2.0 ** 400, 2.0 ** -400]) if k < 0.45 else 1.0)
         a = [x * scale for x in a]
         cs.append(Case('o.c09.polard %s' % hexes(a), 'orc', 'double-polar-' + kind, check=flags_then_small(1, 1e-12)))
     return cs
